@@ -650,3 +650,94 @@ Definition iter_job_path := (fs * Z)%type.      (* outdir/iter_<i> built by os.p
 Definition glob_selected (p : iter_job_path) : list Z := selected_plates (fst p) (snd p).
 (* l[0]: IndexError on an empty list *)
 Definition shead {A} (l : list A) : sres A := match l with a :: _ => SOk a | [] => SRaised [] 98 end.
+
+(* ---------- vocabulary of the source-translation link of main() (harness/src_functions.py C19_MAIN, Generated/SrcOrchMain.v) ----------
+   main() runs in a WORLD: the output directory as it is now, the crash schedule that is left (one entry per call of
+   run_next_*, as in script_run / invocation) and the log of the calls made so far.  The translated main() threads the
+   world through its while-loop; an exception that leaves main() carries the world it leaves behind.
+     args                         the argparse result: args.mode is a string (argparse's `choices` admits two), args.batch_size an
+                                  int; os.path.abspath(args.outdir) denotes THE output directory of the world (OutDir),
+                                  os.path.abspath(args.screen) the screen the operator gave this invocation (SInput)
+     remaining_args               the operator's extra words (opaque)
+     run_next                     a variable that holds one of the two translated functions (stepfn)
+     world_call                   should_run_again = run_next(output_dir=.., input_screen=.., extra_args=.., batch_size=..): the
+                                  function is applied to the tree as it is NOW; what it would do if nothing interfered (its
+                                  result in sres: value + actions ending in the launch / exception after some actions / named
+                                  directory) is played against the next schedule entry by exec_result - the rule of [attempt],
+                                  stated on the function's result instead of on the model's plan - which also says whether the
+                                  call hands its value back to main() (only if it ran to its return: not interrupted, no
+                                  exception, pipeline exit status 0).  No entry left = the observation ends (IExhausted). *)
+Inductive modename := NRetrospective | NProspective | NOther (which : Z).
+Definition modename_eqb (a b : modename) : bool :=
+  match a, b with
+  | NRetrospective, NRetrospective => true
+  | NProspective, NProspective => true
+  | NOther x, NOther y => x =? y
+  | _, _ => false
+  end.
+Definition modename_of (md : mode) : modename := match md with Retro => NRetrospective | Prosp => NProspective end.
+Record margs := mka { a_mode : modename; a_batch_size : Z }.
+Definition eargs := list Z.
+Inductive opath := OutDir.
+Definition stepfn := fs -> spath -> eargs -> Z -> sres (bool * list action).
+Record world := mkw { w_fs : fs; w_sched : list entry; w_calls : list logitem }.
+
+(* the exception monad of main(): MEnd how w = main() does not go on (how = IRaised: an exception propagates out of it;
+   IExhausted: the observation ends), leaving world w.  MNoFuel: the explicit fuel of the while-loop ran out (not a Python
+   behaviour; links are stated for sufficient fuel). *)
+Inductive mres (A : Type) :=
+| MOk (a : A)
+| MEnd (how : iend) (w : world)
+| MNoFuel.
+Arguments MOk {A} a.
+Arguments MEnd {A} how w.
+Arguments MNoFuel {A}.
+Definition mbind {A B} (r : mres A) (k : A -> mres B) : mres B :=
+  match r with MOk a => k a | MEnd h w => MEnd h w | MNoFuel => MNoFuel end.
+Notation "'dom' x <- e ; k" := (mbind e (fun x => k))
+  (at level 200, x pattern, e at level 100, k at level 200, right associativity).
+(* `while True:` left by `break`, on explicit fuel (as PyRt.res_while): the body answers (go on?, state) *)
+Fixpoint mwhile {St : Type} (fuel : nat) (body : St -> mres (bool * St)) (s : St) : mres St :=
+  match fuel with
+  | O => MNoFuel
+  | S k => dom r <- body s; if fst r then mwhile k body (snd r) else MOk (snd r)
+  end.
+
+(* the events of a call that would perform [acts] (three directory actions, then the launch or the exception AFail) and, if
+   it gets to its return, hand back [ret]: the PActs branch of [attempt] *)
+Definition run_events (n : nat) (f : fs) (e : entry) (acts : list action) (ret : option bool) : fs * logitem * option bool :=
+  let k := e_k e in
+  let pre := firstn 3 acts in
+  if (k <? 4)%nat then (fold_left (fun f a => apply_action a f) (firstn k pre) f, GStopped k, None)
+  else
+    let f3 := fold_left (fun f a => apply_action a f) pre f in
+    match nth 3 acts (AFail 0) with
+    | ALaunch s l =>
+        let o := outputs n f3 l in
+        let allp := pubs_of o (e_order e) in
+        let ps := firstn (k - 4) allp in
+        let ok := ((length allp <=? k - 4)%nat && complete_run Retro l o) in      (* complete_run does not depend on the mode *)
+        (publish_all s o ps (upd_plate s (set_by l) f3), GLaunch s l ps ok, if ok then ret else None)
+    | AFail w => (f3, GFail w, None)
+    | _ => (f3, GFail 0, None)
+    end.
+(* what the world makes of one call, given what the called function says it does on tree f *)
+Definition exec_result (n : nat) (f : fs) (e : entry) (res : sres (bool * list action)) : fs * logitem * option bool :=
+  match res with
+  | SNamed w s => (rmtree s f, GNamed w s, None)             (* RuntimeError naming s; the operator removes s *)
+  | SOk (b, []) => (f, GDone, Some b)                         (* returned without touching anything *)
+  | SOk (b, acts) => run_events n f e acts (Some b)
+  | SRaised done w => run_events n f e (done ++ [AFail w]) None
+  end.
+Definition world_call (n : nat) (run : stepfn) (w : world) (o : opath) (s : spath) (x : eargs) (b : Z) : mres (bool * world) :=
+  match w_sched w with
+  | [] => MEnd IExhausted w
+  | e :: rest =>
+      let '(f1, g, ret) := exec_result n (w_fs w) e (run (w_fs w) s x b) in
+      let w1 := mkw f1 rest (w_calls w ++ [g]) in
+      match ret with Some v => MOk (v, w1) | None => MEnd IRaised w1 end
+  end.
+(* an invocation of the model as a result of the translated main() started with call log [calls0] *)
+Definition mres_of_ires (calls0 : list logitem) (r : ires) : mres world :=
+  let w := mkw (r_fs r) (r_rest r) (calls0 ++ r_calls r) in
+  match r_end r with IReturned => MOk w | how => MEnd how w end.
